@@ -62,7 +62,6 @@ Outcome RunC01(RunCtx& ctx)
 	if (s.chance(sim::L_CFG, 1, 2)) g.kindMask = s.draw(sim::L_CFG, 0xFFFFFFFFu) | (1u << static_cast<int>(K::I32));
 	// KF avoid-predicates (1 run in 64 enters the region on purpose)
 	const bool avoid = !s.chance(sim::L_CFG, 1, 64);
-	if (archive == A_XML && avoid) g.allowEmptyContainers = false;      // KF-XML-EMPTY-CONTAINER
 	if (archive == A_CSV && avoid) g.allowEmptyContainers = false;      // KF-CSV-EMPTY-TABLE
 	if (archive == A_JSON && avoid) g.simpleFloats = true;              // KF-JSON-DOUBLE-PRECISION
 
